@@ -73,3 +73,25 @@ Theorem c18_cookie_surface_reviewed :
   existsb SurfaceExpected.is_emission SurfaceExpected.expected_cookie_surface = true.
 Proof. split; vm_compute; reflexivity. Qed.
 Print Assumptions c18_cookie_surface_reviewed.
+
+(* ---- how the command line / environment reaches the cookie options ---- *)
+From V.Gen Require Wiring.
+
+(* The cookie flags REGENERATED from cookieFlagSet on this run: name, pflag constructor, default.  cookie-domain is a
+   StringSlice (comma-separated and repeatable: every listed domain is one entry of the list select_domain ranges
+   over), the protection attributes default to secure and http-only. *)
+Theorem c18_cookie_flags_pinned :
+  Wiring.cookie_flags =
+    [s "cookie-name String ""_oauth2_proxy""";
+     s "cookie-secret String """"";
+     s "cookie-domain StringSlice []string{}";
+     s "cookie-path String ""/""";
+     s "cookie-expire Duration time.Duration(168)*time.Hour";
+     s "cookie-refresh Duration time.Duration(0)";
+     s "cookie-secure Bool true";
+     s "cookie-httponly Bool true";
+     s "cookie-samesite String """"";
+     s "cookie-csrf-per-request Bool false";
+     s "cookie-csrf-expire Duration time.Duration(15)*time.Minute"].
+Proof. vm_compute. reflexivity. Qed.
+Print Assumptions c18_cookie_flags_pinned.
